@@ -30,13 +30,13 @@ pub fn run_cnf_util(case: &CnfUtilCase, st: &mut Stats) -> CaseResult {
     let cnf: Cnf = case.cnf.to_rsdd();
     let n = case.cnf.num_vars();
     ensure!(cnf.num_vars() == n, "C15/cnf-num-vars", "Cnf::new(..).num_vars() = {}, largest label + 1 = {}", cnf.num_vars(), n);
-    // construction preserves each clause's literal set, in order
-    let got: Vec<BTreeSet<(usize, bool)>> = cnf
+    // construction preserves the set of clauses, each a set of literals (order and repetition are not claimed)
+    let got: BTreeSet<BTreeSet<(usize, bool)>> = cnf
         .clauses()
         .iter()
         .map(|c| c.iter().map(|l| (l.label().value_usize(), l.polarity())).collect())
         .collect();
-    let want: Vec<BTreeSet<(usize, bool)>> = case
+    let want: BTreeSet<BTreeSet<(usize, bool)>> = case
         .cnf
         .clauses
         .iter()
@@ -109,6 +109,18 @@ pub fn run_cnf_util(case: &CnfUtilCase, st: &mut Stats) -> CaseResult {
             c2
         );
     }
+    // var_in_cnf = "some clause mentions the variable", both ways, for every variable
+    for v in 0..n {
+        let mentioned = case.cnf.clauses.iter().any(|c| c.iter().any(|(x, _)| *x as usize == v));
+        ensure!(
+            cnf.var_in_cnf(VarLabel::new_usize(v)) == mentioned,
+            "C15/cnf-var-in-cnf",
+            "var_in_cnf(x{}) = {} but the clause list {} the variable",
+            v,
+            cnf.var_in_cnf(VarLabel::new_usize(v)),
+            if mentioned { "mentions" } else { "does not mention" }
+        );
+    }
     // brute-force counting, including n = 0
     let mut real = WmcParams::<RealSemiring>::default();
     let mut ff = WmcParams::<FiniteField<P>>::default();
@@ -159,7 +171,7 @@ pub fn run_cnf_util(case: &CnfUtilCase, st: &mut Stats) -> CaseResult {
 impl SubCheckT for CnfUtil {
     type Case = CnfUtilCase;
     const NAME: &'static str = "cnf";
-    const RULE: &'static str = "random clause lists (incl. the empty list, empty clauses, duplicate/complementary literals): Cnf::new keeps every clause's literal set and num_vars = largest label + 1; eval on all 2^n assignments = the harness's evaluator; is_sat_partial(m) iff every clause has a literal true under m; condition(l) = the cofactor on all assignments and no longer mentions the variable; wmc (small-integer reals, GF(479001599)) = exact brute force, where the empty formula counts one and a formula with an empty clause counts zero. Non-trivial: >=2 clauses with >=2 literals and a non-constant formula";
+    const RULE: &'static str = "random clause lists (incl. the empty list, empty clauses, duplicate/complementary literals): Cnf::new keeps the set of clauses (each a set of literals) and num_vars = largest label + 1; eval on all 2^n assignments = the harness's evaluator; is_sat_partial(m) iff every clause has a literal true under m; condition(l) = the cofactor on all assignments and no longer mentions the variable; wmc (small-integer reals, GF(479001599)) = exact brute force, where the empty formula counts one and a formula with an empty clause counts zero. Non-trivial: >=2 clauses with >=2 literals and a non-constant formula";
     fn cases(tier: Tier) -> u32 {
         tier.pick(12_000, 200_000)
     }
@@ -239,6 +251,25 @@ pub fn run_small(case: &SmallCase, st: &mut Stats) -> CaseResult {
                 lbl,
                 pol
             );
+            // a literal over another variable is implied neither true nor false
+            for raw2 in case.labels.iter() {
+                let lbl2 = raw2 & ((1u64 << 63) - 1);
+                if lbl2 == lbl {
+                    continue;
+                }
+                for pol2 in [false, true] {
+                    let o = Literal::new(VarLabel::new(lbl2), pol2);
+                    ensure!(
+                        !l.implies_true(&o) && !l.implies_false(&o),
+                        "C15/literal-implies",
+                        "({}, {}) claims to decide the literal ({}, {}) of another variable",
+                        lbl,
+                        pol,
+                        lbl2,
+                        pol2
+                    );
+                }
+            }
         }
     }
     if n >= 2 && case.labels.iter().any(|l| *l > u32::MAX as u64) {
@@ -575,11 +606,32 @@ pub fn run_hasher(case: &HasherCase, st: &mut Stats) -> CaseResult {
         .map(|c| c.iter().map(|l| (l.label().value_usize(), l.polarity())).collect())
         .collect();
     let occurrences: usize = clauses.iter().map(|c| c.len()).sum();
-    let exact = occurrences <= 26;
+    // the k-th literal occurrence carries the k-th prime: a state's hash is exact (no wrap-around) when the
+    // product over its residual occurrences fits in 128 bits, which is decided per state, not per CNF
+    let primes: Vec<u128> = {
+        let mut ps: Vec<u128> = Vec::new();
+        let mut c = 2u128;
+        while ps.len() < occurrences {
+            if ps.iter().all(|p| c % p != 0) {
+                ps.push(c);
+            }
+            c += 1;
+        }
+        ps
+    };
+    let mut occ_prime: Vec<Vec<u128>> = Vec::new();
+    {
+        let mut k = 0;
+        for c in clauses.iter() {
+            occ_prime.push((0..c.len()).map(|j| primes[k + j]).collect());
+            k += c.len();
+        }
+    }
+    let mut inexact_states = 0u64;
     // levels of decisions
     let mut levels: Vec<Vec<(usize, bool)>> = vec![vec![]];
     let mut seen_r: BTreeMap<Resid, (HashedCNF, Vec<Option<bool>>)> = BTreeMap::new();
-    let mut seen_h: Vec<(HashedCNF, Resid, Vec<Option<bool>>)> = Vec::new();
+    let mut seen_h: Vec<(HashedCNF, Resid, Vec<Option<bool>>, bool)> = Vec::new();
     let mut pops = 0;
     let mut equal_resid_diff_decisions = 0;
     for (i, op) in case.ops.iter().enumerate() {
@@ -627,12 +679,18 @@ pub fn run_hasher(case: &HasherCase, st: &mut Stats) -> CaseResult {
                 let pm = PartialModel::from_assignments(&m);
                 let hv = h.hash(&pm);
                 let mut r: Resid = BTreeSet::new();
+                let mut product: Option<u128> = Some(1);
                 for (ci, c) in clauses.iter().enumerate() {
                     if c.len() <= 1 {
                         continue;
                     }
                     if c.iter().any(|(v, p)| m[*v] == Some(*p)) {
                         continue;
+                    }
+                    for (li, (v, _)) in c.iter().enumerate() {
+                        if m[*v].is_none() {
+                            product = product.and_then(|x| x.checked_mul(occ_prime[ci][li]));
+                        }
                     }
                     let rest: BTreeSet<(usize, bool)> = c.iter().copied().filter(|(v, _)| m[*v].is_none()).collect();
                     r.insert((ci, rest));
@@ -656,9 +714,13 @@ pub fn run_hasher(case: &HasherCase, st: &mut Stats) -> CaseResult {
                 } else {
                     seen_r.insert(r.clone(), (hv.clone(), m.clone()));
                 }
+                let exact = product.is_some();
+                if !exact {
+                    inexact_states += 1;
+                }
                 if exact {
-                    for (h1, r1, m1) in seen_h.iter() {
-                        if *h1 == hv {
+                    for (h1, r1, m1, e1) in seen_h.iter() {
+                        if *e1 && *h1 == hv {
                             ensure!(
                                 *r1 == r,
                                 "C15/hasher-equal-hash-different-residual",
@@ -672,11 +734,11 @@ pub fn run_hasher(case: &HasherCase, st: &mut Stats) -> CaseResult {
                         }
                     }
                 }
-                seen_h.push((hv, r, m));
+                seen_h.push((hv, r, m, exact));
             }
         }
     }
-    st.flag("hasher.inexact_skipped_only_if", !exact);
+    st.add("hasher.states_with_product_above_128_bits(only-if skipped)", inexact_states);
     if pops >= 1 && equal_resid_diff_decisions >= 1 {
         st.mark_nontrivial();
     }
@@ -686,7 +748,7 @@ pub fn run_hasher(case: &HasherCase, st: &mut Stats) -> CaseResult {
 impl SubCheckT for Hasher {
     type Case = HasherCase;
     const NAME: &'static str = "hasher";
-    const RULE: &'static str = "CnfHasher (clone of cnf.hasher()) under histories of push / decide / pop (pop only above depth 0; decides consistent with the decisions in effect) and hash(m) where m = decisions in effect + random consistent extras and m falsifies no clause: residual R(m) = {(clause occurrence, its unassigned literals)} over unsatisfied clauses of length > 1; equal residuals => equal hashes, and when the CNF has <= 26 literal occurrences (prime product < 2^128) equal hashes => equal residuals. Non-trivial: >=1 pop and two different assignments with equal residuals";
+    const RULE: &'static str = "CnfHasher (clone of cnf.hasher()) under histories of push / decide / pop (pop only above depth 0; decides consistent with the decisions in effect) and hash(m) where m = decisions in effect + random consistent extras and m falsifies no clause: residual R(m) = {(clause occurrence, its unassigned literals)} over unsatisfied clauses of length > 1; equal residuals => equal hashes, and for every pair of states whose products of residual-occurrence primes (k-th occurrence = k-th prime) fit in 128 bits, equal hashes => equal residuals. Non-trivial: >=1 pop and two different assignments with equal residuals";
     fn cases(tier: Tier) -> u32 {
         tier.pick(10_000, 150_000)
     }
